@@ -17,6 +17,7 @@ import (
 	"regexp"
 	"runtime"
 	"sort"
+	"strconv"
 	"strings"
 	"sync"
 	"sync/atomic"
@@ -47,6 +48,10 @@ type c20Mut struct {
 	Typ   byte   `json:"typ,omitempty"`   // rand: type byte
 	BadID bool   `json:"bad_id,omitempty"` // rand: PRNG id as well
 	How   string `json:"how,omitempty"`   // badframe: len0 | toolong | inflated-eof
+	W     int    `json:"w,omitempty"`     // value: width of the word in bytes (4 or 8)
+	V64   string `json:"v64,omitempty"`   // value: new value, hexadecimal (0x…)
+	VName string `json:"vname,omitempty"` // value: what boundary the value is (2^63, 2^64-maxpacket, …)
+	Err   string `json:"errv,omitempty"`  // cuterr: the error value the transport returns after the cut (cliErrKinds; "eof" = plain io.EOF)
 }
 
 type c20Case struct {
@@ -119,6 +124,55 @@ func c20Reframe(typ byte, payload []byte) []byte { return wire.Frame(typ, payloa
 
 // c20Apply produces the bytes sent instead of the valid reply; cutAfter asks for the stream to end after them.
 func c20Apply(m c20Mut, valid []byte) (out []byte, cutAfter bool) {
+	out, cutAfter, _ = c20ApplyReq(m, valid, nil)
+	return
+}
+
+// c20ApplyReq is c20Apply with the request that is being answered (needed by "over": a DATA reply with more bytes
+// than the READ asked for) and the error value the reply stream fails with after the bytes (nil: plain end).
+func c20ApplyReq(m c20Mut, valid []byte, req *wire.Pkt) (out []byte, cutAfter bool, ferr error) {
+	switch m.Kind {
+	case "value":
+		// a WELL-FORMED reply: one value word replaced
+		b := append([]byte(nil), valid...)
+		if m.Base != "valid" && m.Base != "" {
+			b = c20Base(m.Base, binary.BigEndian.Uint32(valid[5:9]))
+		}
+		v, _ := strconv.ParseUint(strings.TrimPrefix(m.V64, "0x"), 16, 64)
+		switch {
+		case m.W == 8 && m.Off+8 <= len(b):
+			binary.BigEndian.PutUint64(b[m.Off:], v)
+		case m.W == 4 && m.Off+4 <= len(b):
+			binary.BigEndian.PutUint32(b[m.Off:], uint32(v))
+		}
+		return b, false, nil
+	case "cuterr":
+		// the first N bytes of the (valid) reply frame, then the transport fails with the chosen error value
+		b := valid
+		if m.Base != "valid" && m.Base != "" {
+			b = c20Base(m.Base, binary.BigEndian.Uint32(valid[5:9]))
+		}
+		n := max(0, min(m.N, len(b)))
+		if m.Err != "" && m.Err != "eof" {
+			if e, _, ok := cliErrValue(m.Err, "read"); ok {
+				ferr = e
+			}
+		}
+		return b[:n], true, ferr
+	case "over":
+		// a well-formed DATA reply carrying N bytes more than the READ asked for
+		if req != nil && req.Typ == wire.Read {
+			if q, err := cliDecodeReq(*req); err == nil {
+				return wire.DataFrame(q.ID, cliPatternBytes("file", q.Off, int(q.Len)+m.N)), false, nil
+			}
+		}
+		return valid, false, nil
+	}
+	out, cutAfter = c20ApplyOld(m, valid)
+	return
+}
+
+func c20ApplyOld(m c20Mut, valid []byte) (out []byte, cutAfter bool) {
 	id := binary.BigEndian.Uint32(valid[5:9])
 	base := valid
 	if m.Base != "valid" && m.Base != "" {
@@ -175,6 +229,12 @@ func (m c20Mut) String() string {
 		return fmt.Sprintf("rand/typ%d/len%d/seed%d/badid=%v", m.Typ, m.Len, m.Seed, m.BadID)
 	case "badframe":
 		return fmt.Sprintf("%s/badframe-%s", m.Base, m.How)
+	case "value":
+		return fmt.Sprintf("%s/value/%s@%d:%d=%s(%s)", m.Base, m.Field, m.Off, m.W, m.V64, m.VName)
+	case "cuterr":
+		return fmt.Sprintf("%s/stream-cut@%d/%s", m.Base, m.N, m.Err)
+	case "over":
+		return fmt.Sprintf("data-over+%d", m.N)
 	}
 	return m.Base + "/" + m.Kind
 }
@@ -229,38 +289,44 @@ func c20Run(cs c20Case) (res c20Res) {
 			valid := fake.Reply(p)
 			out := valid
 			cutAfter := false
+			var ferr error
+			// whether the request belongs to the measured operation is decided once, under the lock the main goroutine
+			// takes to end the measurement: the bytes of every reply counted as the operation's are in `recv` before
+			// the allocation is read (a concurrent transfer can return while a speculative READ is still unanswered)
+			mu.Lock()
+			dead := cut
 			if phase.Load() == 1 {
-				mu.Lock()
 				if cs.Idx < 0 {
 					res.Replies = append(res.Replies, lib.Hex(valid))
 					res.ReqTyps = append(res.ReqTyps, int(p.Typ))
 				}
 				if n == cs.Idx {
-					out, cutAfter = c20Apply(cs.Mut, valid)
+					out, cutAfter, ferr = c20ApplyReq(cs.Mut, valid, &p)
 					res.Reached = true
 					res.Sent = lib.Hex(out)
 					res.ReqTyp = int(p.Typ)
 				}
 				n++
-				mu.Unlock()
+				if !dead {
+					recv.Add(int64(len(out)))
+				}
 			}
-			mu.Lock()
-			dead := cut
 			mu.Unlock()
 			if dead {
 				continue
 			}
-			if phase.Load() == 1 {
-				recv.Add(int64(len(out)))
-			}
-			if peer.Reply(out) != nil {
+			if len(out) > 0 && peer.Reply(out) != nil {
 				continue
 			}
 			if cutAfter {
 				mu.Lock()
 				cut = true
 				mu.Unlock()
-				peer.CutOutput()
+				if ferr != nil {
+					peer.FailOutput(ferr) // the client's next Read returns this very value
+				} else {
+					peer.CutOutput()
+				}
 			}
 		}
 	}()
@@ -298,8 +364,10 @@ func c20Run(cs c20Case) (res c20Res) {
 	phase.Store(1)
 	runtime.ReadMemStats(&m0)
 	returned := cliWithin(cliDeadline, func() { summary, operr = op.Run(env) })
-	runtime.ReadMemStats(&m1)
+	mu.Lock()
 	phase.Store(2)
+	mu.Unlock()
+	runtime.ReadMemStats(&m1)
 	res.Recv = int(recv.Load())
 	res.Alloc = m1.TotalAlloc - m0.TotalAlloc
 	if m1.HeapAlloc > 192<<20 {
@@ -318,7 +386,17 @@ func c20Run(cs c20Case) (res c20Res) {
 	} else {
 		res.Outcome, res.Summary = "value", summary
 	}
-	if bound := uint64(64*res.Recv + 1<<20); res.Alloc > bound {
+	if p := cliAccPanic.Swap(nil); p != nil {
+		// the value handed to the caller cannot be looked at: its accessor panics (recovered here, so the case goes on)
+		res.Outcome = "panic"
+		fail("panic/accessor/"+cs.Op, "the operation returned a value whose accessor panics in the caller: "+*p, *p)
+	}
+	bound := uint64(64*res.Recv + 1<<20)
+	if strings.Contains(cs.Opt, "mp-default") {
+		// the working set a default Client is configured for (64 requests in flight x 32 KiB buffers), whatever the replies
+		bound += 2 * 64 * 32768
+	}
+	if res.Alloc > bound {
 		fail("alloc/"+cs.Op, fmt.Sprintf("the call allocated %d bytes for %d reply bytes (bound 64·n + 1 MiB = %d)", res.Alloc, res.Recv, bound), res.Alloc)
 	}
 	// ---- afterwards: still usable, or failed cleanly ----
@@ -412,9 +490,10 @@ func c20Key(d *cliDeath, op string) string {
 // c20Pair is an (operation, option variant) pair and how densely its replies are mutated:
 // 3 thorough-full, 2 quick-full, 0 light.
 type c20Pair struct {
-	op      cliOp
-	variant string
-	level   int
+	op        cliOp
+	variant   string
+	level     int
+	valueOnly bool // only the value family (c20_more.go) is generated for this pair
 }
 
 func c20Pairs(thorough bool) []c20Pair {
@@ -432,10 +511,10 @@ func c20Pairs(thorough bool) []c20Pair {
 			if thorough {
 				lvl = map[int]int{2: 3, 0: 2}[lvl]
 			}
-			out = append(out, c20Pair{op, v, lvl})
+			out = append(out, c20Pair{op: op, variant: v, level: lvl})
 		}
 	}
-	return out
+	return append(out, c20ExtraPairs(thorough)...)
 }
 
 func c20Generate(c *lib.Ctx, pairs []c20Pair, dry map[string]c20Res) []c20Case {
@@ -443,25 +522,14 @@ func c20Generate(c *lib.Ctx, pairs []c20Pair, dry map[string]c20Res) []c20Case {
 	for pi, p := range pairs {
 		op := p.op
 		d, ok := dry[cliOpKey(op.Name, p.variant)]
-		if !ok {
+		if !ok || p.valueOnly {
 			continue
 		}
 		thorough := p.level == 3
 		light := p.level == 0
 		nrand := map[int]int{3: 150, 2: 4, 0: 1}[p.level]
 		// the speculative tail of a concurrent WriteTo is schedule dependent: keep the deterministic prefix + 2
-		nrep := len(d.Replies)
-		eofs := 0
-		for j := 0; j < len(d.Replies); j++ {
-			fr := lib.UnHex(d.Replies[j])
-			if strings.HasPrefix(op.Name, "File.WriteTo-concurrent") && fr[4] == wire.Status {
-				eofs++
-				if eofs == 2 {
-					nrep = j + 1
-					break
-				}
-			}
-		}
+		nrep := c20Nrep(op.Name, d)
 		for j := 0; j < nrep; j++ {
 			valid := lib.UnHex(d.Replies[j])
 			add := func(m c20Mut) { out = append(out, c20Case{Op: op.Name, Opt: p.variant, Idx: j, Mut: m}) }
@@ -541,7 +609,7 @@ func c20Generate(c *lib.Ctx, pairs []c20Pair, dry map[string]c20Res) []c20Case {
 
 func checkC20(c *lib.Ctx) {
 	r := c.R
-	r.Rule = "for each of the client operations of cmd/vh/cli_ops.go (Client and File API incl. Walk, Glob, ReadDirContext over several batches, RemoveAll and MkdirAll over a tree, ReadFrom with every reader interface, ReadFromWithConcurrency; single- and multi-chunk, sequential and concurrent paths; 40-byte file, MaxPacket 16), each option variant of the operation (every operation: MaxPacketUnchecked, MaxPacketChecked, the MaxPacket alias, UseFstat(true) — the last three at reduced density, thorough: quick density; transfers also: UseFstat on/off, UseConcurrentReads false/true, UseConcurrentWrites true/false, MaxConcurrentRequestsPerFile 1/2 and combinations, at full density) and each reply of the operation: the valid reply (from a fake server) cut to every payload length 0…n-1 with a consistent frame length; every length/count/attribute-flags word set to 0, n-1, n+1, 2^31-1, 2^32-1 (flags: |EXTENDED, all ones); every other reply kind (3 STATUS shapes, HANDLE, DATA, NAME x1, NAME x2, ATTRS, EXTENDED_REPLY, VERSION, type 99) with the right id, themselves cut (thorough: every length; quick: 0…8, middle, n-1) and field-edited; PRNG payloads with PRNG type (some with a PRNG id); ill-framed packets (length 0, length > 256 KiB, inflated length then EOF). Each case is one fresh Client in a child process (one case at a time; a dead child is re-run alone). Non-trivial = every case whose reply differs from the valid one; distinct by (operation, option variant, reply index, mutation)."
+	r.Rule = "for each of the client operations of cmd/vh/cli_ops.go (Client and File API incl. Walk, Glob, ReadDirContext over several batches, RemoveAll and MkdirAll over a tree, ReadFrom with every reader interface, ReadFromWithConcurrency; single- and multi-chunk, sequential and concurrent paths; 40-byte file, MaxPacket 16), each option variant of the operation (every operation: MaxPacketUnchecked, MaxPacketChecked, the MaxPacket alias, UseFstat(true) — the last three at reduced density, thorough: quick density; transfers also: UseFstat on/off, UseConcurrentReads false/true, UseConcurrentWrites true/false, MaxConcurrentRequestsPerFile 1/2 and combinations, at full density) and each reply of the operation: the valid reply (from a fake server) cut to every payload length 0…n-1 with a consistent frame length; every length/count/attribute-flags word set to 0, n-1, n+1, 2^31-1, 2^32-1 (flags: |EXTENDED, all ones); every other reply kind (3 STATUS shapes, HANDLE, DATA, NAME x1, NAME x2, ATTRS, EXTENDED_REPLY, VERSION, type 99) with the right id, themselves cut (thorough: every length; quick: 0…8, middle, n-1) and field-edited; PRNG payloads with PRNG type (some with a PRNG id); ill-framed packets (length 0, length > 256 KiB, inflated length then EOF). Further families (c20_more.go): VALUE — well-formed replies whose value words (ATTRS size, uid, gid, permissions, atime, mtime, also inside every NAME entry; the eleven statvfs numbers; the status code) are set to 0, 1, 2^31-1, 2^31, 2^32-1, 2^32, 2^53+1, 2^62, 2^63-1, 2^63, 2^63+1, 2^64-2^15, 2^64-2, 2^64-1, the values around 2^64-k*p, 2^63±p, 64*p, p for both packet sizes p in play (16 and the default 32768), PRNG values with the top bit set and clear; permission words also every file type; for every operation that receives the reply, under every option variant, plus the multi-step value operations of cliValueOps (Seek(End) then Read / Write / WriteTo / ReadFrom; Stat then Truncate(size); ReadFrom from readers announcing MaxInt64, MinInt64, -1) and the transfers on a Client without any MaxPacket option; sizes 2^63, 2^64-2^15, 2^64-1 are in every tier for every pair; every FileInfo / *FileStat / *StatVFS returned is looked at through all its accessors under recover. STREAM CUT — the reply stream cut after N bytes of a reply (quick: first reply of the default variant: every N for frames <= 64 bytes, else 0..13, middle, every 7th, n-1, n; all other replies and variants: 4, 5, 9 and one rotating position; thorough: every N) and then failing with an error value of the table cliErrKinds (io.EOF plain / wrapped / Is-method / joined, io.ErrUnexpectedEOF, io.ErrClosedPipe, os.ErrClosed, net.ErrClosed, deadlines, EPIPE, ECONNRESET, opaque) — exactly after the length word: always a non-EOF value and a rotating one (first reply of the default variant and thorough: every value). OVER — every READ answered with a well-formed DATA reply carrying 1, 9, 16 (one chunk), 200000 bytes more than requested (thorough: also 2, 15, 17, 255, 4096, 32768, 65536 and the largest frame the client accepts -1/0/+1). Each case is one fresh Client in a child process (one case at a time; a dead child is re-run alone). Non-trivial = every case whose reply differs from the valid one; distinct by (operation, option variant, reply index, mutation)."
 	workers := runtime.NumCPU()
 	if workers > 16 {
 		workers = 16
@@ -597,6 +665,11 @@ func checkC20(c *lib.Ctx) {
 			c20DryCache.Store(okey, res.Replies)
 		}
 		cases = c20Generate(c, pairs, dry)
+		// the further families (c20_more.go); the value cases last: a boundary at which an operation HANGS costs hang
+		// budget, and nothing else is waiting behind it
+		cases = append(cases, c20GenCut(c, pairs, dry)...)
+		cases = append(cases, c20GenOver(c, pairs, dry)...)
+		cases = append(cases, c20GenValue(c, pairs, dry)...)
 	}
 	selftest := -1
 	if c.Replay == "" {
@@ -607,7 +680,7 @@ func checkC20(c *lib.Ctx) {
 	for i, cs := range cases {
 		raws[i], _ = json.Marshal(cs)
 	}
-	results, deaths, err := cliRunPoolC("c20", nil, raws, workers, 90*time.Second, nil, func(i int) string { return "c20/" + cases[i].Op })
+	results, deaths, err := cliRunPoolC("c20", nil, raws, workers, 90*time.Second, nil, func(i int) string { return c20Class(cases[i]) })
 	if err != nil {
 		r.Fail(lib.Failure{Kind: "tie", Key: "child-start", What: err.Error()})
 		return
@@ -642,6 +715,41 @@ func checkC20(c *lib.Ctx) {
 			}
 		}
 		r.Hist("mutation/" + cs.Mut.Kind + "/" + map[bool]string{true: "valid-reply", false: "substituted-type"}[cs.Mut.Base == "valid" || cs.Mut.Base == ""])
+		switch cs.Mut.Kind {
+		case "value":
+			f := cs.Mut.Field
+			if strings.HasPrefix(f, "name") && f != "name-count" && strings.Contains(f, "-") {
+				f = "nameN" + f[strings.Index(f, "-"):]
+			}
+			if strings.HasPrefix(f, "extreply-u64-") {
+				f = "extreply-u64-N"
+			}
+			r.Hist("value-field/" + f)
+			r.Hist("value/" + fmt.Sprint(8*cs.Mut.W) + "bit/" + cs.Mut.VName)
+		case "cuterr":
+			at := "body"
+			switch {
+			case cs.Mut.N == 0:
+				at = "before-length-word"
+			case cs.Mut.N < 4:
+				at = "inside-length-word"
+			case cs.Mut.N == 4:
+				at = "after-length-word"
+			case cs.Mut.N == 5:
+				at = "after-type-byte"
+			case cs.Mut.N < 9:
+				at = "inside-id"
+			case cs.Mut.N == 9:
+				at = "after-id"
+			}
+			r.Hist("stream-cut/" + at)
+			r.Hist("stream-cut-error/" + cs.Mut.Err)
+			if cs.Mut.N == 4 {
+				r.Hist("stream-cut-after-length-word/" + cs.Mut.Err)
+			}
+		case "over":
+			r.Hist("data-over/+" + fmt.Sprint(cs.Mut.N))
+		}
 		if d := deaths[i]; d != nil {
 			key := c20Key(d, cs.Op)
 			r.Hist("outcome/child-died/" + d.Why)
@@ -672,6 +780,7 @@ func checkC20(c *lib.Ctx) {
 		if !res.Reached {
 			unreached++
 			r.Hist("outcome/reply-index-not-reached")
+			r.Hist("not-reached/" + cs.Mut.Kind + "/" + cs.Op)
 			continue
 		}
 		r.Hist("outcome/" + res.Outcome)
@@ -752,6 +861,9 @@ func c20ActualSent(f lib.Failure) any {
 // c20Describe renders the malformed frame of a case whose child died (the valid reply is not known for
 // "valid"-based mutations without the dry run, so those are rebuilt from a fresh fake server where possible).
 func c20Describe(cs c20Case) string {
+	if cs.Mut.Kind == "over" {
+		return fmt.Sprintf("well-formed DATA reply to the READ carrying the requested bytes and %d more", cs.Mut.N)
+	}
 	var valid []byte
 	if cs.Mut.Base == "valid" || cs.Mut.Base == "" {
 		valid = c20ValidFor(cs)
